@@ -14,9 +14,21 @@ CHECKS = {
    text="Proof (Coq, all event lists: any submissions, rounds, fault placements applied or not, crashes, restarts, clocks, any number of instances, tampering): the lock-store checkpoint history is append-only (sizes, prefix roots, strictly increasing timestamps) and every published checkpoint was committed first; the invariant is inductive over a small-step model of CreateLog/LoadLog/sequencePool. Tie: generated histories run against real ctlog.Log instances and replayed by the extracted model (operation-level equality incl. payload digests) plus independent-tree monitors.",
    ref="5 (C01), 5.0", note=SEQ_NOTE + " The published-history clause is a theorem only for the lock store; for object storage it is exercised by monitors (and false with two live instances: known finding under C06).",
    technique="Coq inductive invariant over a small-step sequencer model + extracted-model differential histories against real ctlog.Log"),
+ "C02": dict(
+   text="Proof (Coq, all event lists incl. crashes right after an acknowledgement, cache loss/rollback/take-over, faults, any number of instances): every acknowledgement (sequenced or served from the dedup cache) names an index that in every committed tree large enough holds an entry with the same dedup identity, that timestamp and that index, and acknowledgements are never retracted (second inductive invariant layer Inv2 + monotonicity). Partial: coverage by the checkpoint READABLE in object storage at that moment is decided per run by the monitor C02.ack (it is false with two live instances: known finding C06); SCT signature verification by ct-go is exercised in C09.",
+   ref="5 (C02)", note=SEQ_NOTE, technique="Coq inductive invariant (acks/caches name committed leaves) + differential histories with a per-acknowledgement storage monitor"),
+ "C03": dict(
+   text="Proof (Coq, partial): crashes are ordinary events of the quantified event lists; proved for all of them: no acknowledged entry is lost (stays acknowledged, stays in every later committed tree) and nothing but staging bundles is ever discarded. Recoverability itself (restart loads, all tiles of the lock tree present, sequencing continues; bundle discarded only after the published checkpoint caught up) is decided per run: the harness crashes real instances at every kind of operation of a round and of LoadLog (incl. subsets of the parallel batch), restarts, audits every tile and runs another round; the model must predict every operation.",
+   ref="5 (C03)", note=SEQ_NOTE + " Storage-completeness invariant I3 is not yet a theorem.", technique="Coq theorems over all event lists with crash events (C03_partial_*) + crash-point differential histories and storage audit"),
+ "C04": dict(
+   text="Proof (Coq, partial): only staging bundles are ever discarded; an immutable object is never replaced by different bytes. Completeness and byte-exactness of every tile behind the published checkpoint are decided per run: the extracted model predicts the digest of every uploaded object from the specification-level rendering of the leaf list (operation-level equality), and the monitor C04.audit re-reads all data/names/hash tiles and issuers behind every effective checkpoint upload against an independent RFC 6962 tree.",
+   ref="5 (C04)", note=SEQ_NOTE + " Storage-completeness invariant I3 is not yet a theorem; names tiles only for unparseable certificates.", technique="Coq theorems (C04_partial_*) + byte-level digest correspondence of every upload + full storage audit monitor"),
  "C06": dict(
    text="Proof (Coq, all interleavings at operation granularity of any number of instances): lock history has no repeated value, the lock is its last element, a refused compare-and-swap changes nothing, is fatal and acknowledges nothing, CreateLog never overwrites, LoadLog refuses storage-ahead / same-size-other-root / foreign key or name / extension. Tie: two gated real instances with hold points, start-up state scenarios. The rollback of the *published* checkpoint by a superseded instance is a confirmed known finding.",
    ref="5 (C06), 0.3", note=SEQ_NOTE, technique="Coq invariant + step lemmas over the multi-instance sequencer model + differential two-instance histories"),
+ "C07": dict(
+   text="Proof (Coq): a resubmission of a pending/in-sequencing entry joins the original waiter and adds no leaf; a cached entry is answered from the cache and adds no leaf; every acknowledgement incl. those from a cache, a taken-over cache file or a rolled-back cache names an index that really holds that entry (all event lists); the dedup identity depends only on (type, issuer key hash, certificate). Tie: duplicate patterns against every phase of real rounds, cache loss/keep across restarts; monitor C07.dup compares each duplicate's answer with the original's.",
+   ref="5 (C07)", note=SEQ_NOTE + " Legacy 128-bit table, recompute-cache tool and SCT byte-identity are not modelled (exercised elsewhere or not at all: see DESIGN).", technique="Coq theorems over the admission function and the ack/cache invariant + differential duplicate/cache histories"),
  "C08": dict(
    text="Proof (Coq): tampering events (any object replaced by anything or deleted, anywhere in the event list) are part of the quantified event lists of the invariant: the committed history stays one append-only chain. Partial: the verifying tile reader is a specification in the model; the tamper stream of the harness (delete, truncate, bit-flip, substitute, checkpoint rollback, then restart and further rounds) checks the real reader against it.",
    ref="5 (C08)", note=SEQ_NOTE, technique="Coq invariant closed under arbitrary EvTamper events (C08_partial) + differential tamper histories"),
@@ -25,6 +37,10 @@ CHECKS = {
    ref="5 (C10)",
    note="Trusted: Coq kernel; extraction (ExtrOcamlBasic) and the OCaml/Go drivers; the hand transcription Codec/Leaf.v (tied only by differential testing); cryptobyte and x/mod tlog path functions are modelled, not verified.",
    technique="Coq proof of round-trip/canonicity theorems over an executable Gallina codec model + extracted-model differential against the Go implementation"),
+ "C18": dict(
+   text="Proof (Coq, all directories and sizes, both path flavours, Go int wrap-around included): every path the cleanup removes is a partial tile (or its emptied .p directory) whose non-empty full tile exists strictly left of the right edge of the tree of the given size; no tile of any tree of size >= that size is ever removed (superseded_safe arithmetic), so a complete published tree, a lock-store tree ahead of it, and mirror trees stay complete. Tie: the UNMODIFIED partial-aftersun binary on real sequencer-built LocalBackend directories at sizes around level-0/level-1 boundaries (incl. 65535..65537), lock-ahead states, planted leftovers, mirror directories and synthetic directories; deleted set and exit class reproduced by the extracted model; audit + LoadLog + one more round after cleaning.",
+   ref="5 (C18), 2.4", note="Trusted: Coq kernel, extraction + OCaml/Go drivers, the transcription GC/Model.v of cleanDir/overrideImmutable; os.Root, ReadDir order, unlink and the immutable-flag ioctl are specified not modelled; symlinks and concurrent writers out of scope; 'can restart and sequence' is shown by monitors, not a theorem. Observations outside C18's quantifier (stray directory named with level 2^61-1 wraps the tile size; levels 7..2^60 panic; any unparsable entry such as a durable.WriteFile temp leftover stops the walk with exit 1, deleting nothing wrongly) are recorded in DESIGN.md.",
+   technique="Coq proof about an executable transcription of cleanDir + differential run of the unmodified partial-aftersun binary on real and synthetic directories with audit/reload monitors"),
  "C17": dict(
    text="Proof (Coq, all pools/arrival orders/victim choices): the admission function (mutex-protected part of addLeafToPool) keeps the pool within its size, rejects low priority when full, evicts exactly one pending low-priority entry for a high-priority one (else rejects), and rejects everything once closed; the stop paths are part of the sequencer model. Tie: pool-size 1..3 scenarios, clock-stall fatal stops and cancellations against real RunSequencer goroutines; every waiter outcome compared.",
    ref="5 (C17)", note=SEQ_NOTE + " 'Promptly' is checked by the harness only as 'returns within the quiescence window'.", technique="Coq theorems about the admission function + differential pool/stop histories"),
